@@ -34,6 +34,8 @@ struct G<'a> {
   optwrite: Option<(i64, i64, i64, i64, String)>,
   /// resources of the library's own map resource type only admit the library's equality checker
   maponly: BTreeSet<i64>,
+  /// file resources admit the content hash checker ("eq") and the existence checker ("ex")
+  fileonly: BTreeSet<i64>,
   rng: &'a mut StdRng,
   nt: usize,
   nr: usize,
@@ -75,6 +77,7 @@ impl<'a> G<'a> {
       "rd" => {
         let r = op.x;
         if self.maponly.contains(&r) && op.c != "eq" { return false; }
+        if self.fileonly.contains(&r) && op.c != "eq" && op.c != "ex" { return false; }
         if ctx.written.contains(&r) { return false; }
         if self.one_chk { if let Some(c) = ctx.read.get(&r) { if *c != op.c { return false; } } }
         if self.free { return true; }
@@ -109,6 +112,7 @@ impl<'a> G<'a> {
           *ctx.read.keys().collect::<Vec<_>>().choose(self.rng).unwrap().clone()
         } else { self.rng.gen_range(1..=self.nr as i64) };
         let c = if self.maponly.contains(&r) { "eq".to_string() }
+          else if self.fileonly.contains(&r) && !ctx.read.contains_key(&r) { if self.rng.gen_bool(0.7) { "eq".to_string() } else { "ex".to_string() } }
           else if let (true, Some(c)) = (self.one_chk, ctx.read.get(&r)) { c.clone() } else { self.rchk.choose(self.rng).unwrap().to_string() };
         Op::rd(r, &c)
       } else if roll < 68 {
@@ -255,7 +259,8 @@ pub fn generate(seed: u64, index: usize, cfg: &GenCfg) -> Scenario {
   } else {
     let (nt, nr) = match cfg.fixed { Some((t, r, _)) => (t, r), None => (rng.gen_range(2..=cfg.max_t), rng.gen_range(2..=cfg.max_r)) };
     let map_ok = cfg.fixed.is_none() && !matches!(fam, "FAULT");
-    let rt: Vec<u8> = (0..nr).map(|_| if map_ok && rng.gen_bool(0.2) { 2 } else { 0 }).collect();
+    // a fifth of the resources are keys of the library's map resource, a sixth files of its filesystem resource
+    let rt: Vec<u8> = (0..nr).map(|_| if map_ok && rng.gen_bool(0.2) { 2 } else if map_ok && rng.gen_bool(0.17) { 3 } else { 0 }).collect();
     ((0..nt).map(|_| 0).collect(), (1..=nt as u32).collect(), rt, (1..=nr as u32).collect())
   };
   let nt = ttype.len();
@@ -299,6 +304,7 @@ pub fn generate(seed: u64, index: usize, cfg: &GenCfg) -> Scenario {
     let mut v: Vec<&'static str> = OCHK.to_vec(); v.shuffle(&mut rng); v.truncate(rng.gen_range(2..=6)); v
   };
   let maponly: BTreeSet<i64> = (0..nr).filter(|i| rtype[*i] == 2).map(|i| (i + 1) as i64).collect();
+  let fileonly: BTreeSet<i64> = (0..nr).filter(|i| rtype[*i] == 3).map(|i| (i + 1) as i64).collect();
   let optwrite = {
     let gens: Vec<usize> = (0..nr).filter(|r| writer[*r] > 1).collect();
     let srcs: Vec<usize> = (0..nr).filter(|r| writer[*r] == 0).collect();
@@ -310,7 +316,7 @@ pub fn generate(seed: u64, index: usize, cfg: &GenCfg) -> Scenario {
       Some((w, (r + 1) as i64, rdr, (*srcs.choose(&mut rng).unwrap() + 1) as i64, chk.to_string()))
     } else { None }
   };
-  let mut g = G { optwrite, maponly, rng: &mut rng, nt, nr, nv, na, len, writer: writer.clone(), rchk, ochk, nowrite, min_req, free,
+  let mut g = G { optwrite, maponly, fileonly, rng: &mut rng, nt, nr, nv, na, len, writer: writer.clone(), rchk, ochk, nowrite, min_req, free,
                   one_chk: fam != "TWOCHK" };
   let mut prog: Vec<Vec<Vec<Op>>> = Vec::new();
   let flip = free && g.rng.gen_bool(0.6);
